@@ -5,12 +5,18 @@ import typing as t
 
 from vlib.fixtures.models import Point  # noqa: F401  (resolvable by name from this module)
 
+@dataclasses.dataclass
+class WPoint:  # a class *defined* in this module (Point above is only imported into it)
+    x: int
+    y: int
+
+
 IntT = int
 ListInt = list[int]
 DictStrInt = dict[str, int]
 OptInt = t.Optional[int]
 
-BASES = {"int": ("IntT", int), "list[int]": ("ListInt", list[int]), "Point": ("Point", Point), "dict[str,int]": ("DictStrInt", dict[str, int])}
+BASES = {"int": ("IntT", int), "list[int]": ("ListInt", list[int]), "Point": ("Point", Point), "WPoint": ("WPoint", WPoint), "dict[str,int]": ("DictStrInt", dict[str, int])}
 WRAPPERS = ("NewType", "alias", "alias_str", "Final", "ClassVar", "str", "ForwardRef")
 _n = [0]
 
